@@ -17,6 +17,7 @@ package main
 import (
 	"bytes"
 	"fmt"
+	"net"
 	"os"
 	"path/filepath"
 	"sort"
@@ -30,7 +31,7 @@ import (
 )
 
 var c19Names = []string{"10", "9", "B", "a", "é"}
-var c19Kinds = []string{"absent", "good1", "good2", "good3", "empty", "cut-in-header", "cut-in-entity", "cut-last-byte", "corrupt", "sub-directory", "vanishes", "replaced-by-directory", "symlink-to-good-file", "dangling-symlink", "good2-header-last", "good-ending-in-LF", "good-ending-in-CR"}
+var c19Kinds = []string{"absent", "good1", "good2", "good3", "empty", "cut-in-header", "cut-in-entity", "cut-last-byte", "corrupt", "sub-directory", "vanishes", "replaced-by-directory", "symlink-to-good-file", "dangling-symlink", "good2-header-last", "good-ending-in-LF", "good-ending-in-CR", "symlink-to-itself", "unix-socket"}
 
 var c19GoodCache [][]byte
 
@@ -201,6 +202,21 @@ func c19HarnessClock(nNames int, allKinds bool, clock bool) Harness {
 					harnessBug("symlink: %v", err)
 				}
 				continue
+			case "symlink-to-itself": // reading it fails with ELOOP
+				if err := os.Symlink(p, p); err != nil {
+					harnessBug("symlink: %v", err)
+				}
+				continue
+			case "unix-socket": // reading it fails with ENXIO
+				l, err := net.Listen("unix", p)
+				if err != nil {
+					harnessBug("unix socket: %v", err)
+				}
+				if ul, ok := l.(*net.UnixListener); ok {
+					ul.SetUnlinkOnClose(false)
+				}
+				l.Close()
+				continue
 			case "dangling-symlink":
 				if err := os.Symlink(filepath.Join(linkTargets, "no-such-file"), p); err != nil {
 					harnessBug("symlink: %v", err)
@@ -348,7 +364,7 @@ func scratchBase() string {
 	return ""
 }
 
-var c19QuickKinds = []int{0, 1, 2, 4, 6, 8, 9, 10, 11, 12, 14, 15}
+var c19QuickKinds = []int{0, 1, 2, 4, 6, 8, 9, 10, 12, 14, 15, 17, 18}
 
 // c19NameOrder: good files under names whose byte order differs from "natural", extension-less,
 // case-insensitive or numeric order: every subset of 4 of 18 names.
@@ -593,7 +609,7 @@ func init() {
 	register(&Check{
 		ID:    "C19",
 		Level: "fault_enumeration",
-		Rule: "every assignment of {absent, good1, good2, good3, empty, cut-in-header, cut-in-entity, cut-last-byte, corrupt, sub-directory, vanishes after listing, replaced by a directory after listing, symlink to a good file, dangling symlink} to the names 10, 9, B, a, é (thorough: 14^5 = 537 824 directories; quick: the first 4 names, 14^4 = 38 416) - x 2 creation orders, on a real temporary directory; plus every 4-subset of 18 file names (byte order differing from extension-less / natural / case-insensitive order; names that are not valid UTF-8, contain a newline, start with a blank, a dot or a dash, are 240 bytes long); plus runs of 1..520 bad entries in a row before / between / after good files; good files in a non-canonical field order (header last) and ending in the bytes 0x0A / 0x0D; plus 3-name directories replayed while the wall clock jumps 2 s before chosen Next calls (the source reports progress once per second); plus directories in which one of three good files is 70 KiB / 1 MiB / 4 MiB / 17 MiB large, at each position; " +
+		Rule: "every assignment of {absent, good1, good2, good3, empty, cut-in-header, cut-in-entity, cut-last-byte, corrupt, sub-directory, vanishes after listing, replaced by a directory after listing, symlink to a good file, dangling symlink, a valid feed encoded header-last, valid feeds ending in the bytes 0x0A / 0x0D, symlink to itself (ELOOP), unix socket (ENXIO)} to the names 10, 9, B, a, é (thorough: all 19 kinds on 5 names; quick: 13 kinds on the first 4 names) - x 2 creation orders, on a real temporary directory; plus every 4-subset of 18 file names (byte order differing from extension-less / natural / case-insensitive order; names that are not valid UTF-8, contain a newline, start with a blank, a dot or a dash, are 240 bytes long); plus runs of 1..520 bad entries in a row before / between / after good files; good files in a non-canonical field order (header last) and ending in the bytes 0x0A / 0x0D; plus 3-name directories replayed while the wall clock jumps 2 s before chosen Next calls (the source reports progress once per second); plus directories in which one of three good files is 70 KiB / 1 MiB / 4 MiB / 17 MiB large, at each position; " +
 			"non-trivial = distinct directories with >= 2 entries; oracle = independent parses of the readable, parseable entries in byte order of their names, nil afterwards, and equality of the journals",
 		Assumptions: []string{"unreadable means: is a directory or no longer exists (the checks run as root, so permission faults cannot be produced)", "whether a damaged file still 'parses as GTFS-realtime' is decided independently of the library, by strictly decoding its bytes as a FeedMessage"},
 		Scenarios: func(tier string) []*Scenario {
